@@ -177,7 +177,7 @@ STATS = [
 
 def run(ctx: Ctx):
   st = {}
-  for r in (r1, r2, r3, r4, r5, r6, r7, r9, r10, r12, r14, r15):
+  for r in (r1, r2, r3, r4, r5, r6, r7, r9, r10, r12, r14, r15, r16, r17):
     ctx.guard(r, st)
   from mlmverif.props import c11
   from mlmverif.props._agg import model as aggmodel
@@ -308,6 +308,95 @@ def r15(ctx: Ctx, st):
                      ' re.escape: a user pattern with metacharacters (. + | $ ...) is matched as a regex,'
                      ' not counted as the literal string the metric is defined over', node=c)
   ctx.floor(rule, 5, n)
+
+
+def r16(ctx: Ctx, st):
+  rule = 'R-C07-16'
+  ctx.rule(rule, '"for every ... k-list": the top-k prediction set at k contains ranks 1..k whatever other'
+           ' cut-offs were requested. In _apply_vocab_at_k the loop that marks the predictions in the'
+           ' indicator matrix visits EVERY rank below the largest k — it iterates `range(<bound>)` with'
+           ' the rank as loop variable, and only the yield is restricted to the requested ks. A loop'
+           ' over the requested ks themselves skips the ranks in between: with k_list=[1, 3] the'
+           ' prediction at rank 2 never enters the top-3 set, and the value at a given k depends on which'
+           ' other ks were asked for')
+  fi = ctx.repo.module('aggregates.classification').functions.get('_apply_vocab_at_k')
+  if fi is None:
+    raise AnalysisError(f'{rule}: _apply_vocab_at_k not found')
+  n = 0
+  for lp in walk_no_nested(fi.node):
+    if not (isinstance(lp, ast.For) and isinstance(lp.target, ast.Name)):
+      continue
+    rv = lp.target.id
+    # the rank variable indexes a row of predictions somewhere in the body (directly or via j = k - 1)
+    derived = {rv} | {t.id for x in ast.walk(lp) if isinstance(x, ast.Assign) and any(
+        isinstance(y, ast.Name) and y.id == rv for y in ast.walk(x.value)) for t in x.targets if isinstance(t, ast.Name)}
+    marks = any(isinstance(sub, ast.Subscript) and isinstance(sub.slice, ast.Name) and sub.slice.id in derived
+                and isinstance(sub.ctx, ast.Load) for sub in ast.walk(lp))
+    if not marks:
+      continue
+    n += 1
+    it = lp.iter
+    contiguous = isinstance(it, ast.Call) and unparse(it.func) == 'range' and len(it.args) == 1
+    if contiguous:
+      ctx.ok(rule, fi, f'ranks visited by `for {rv} in {unparse(it)[:40]}`', lp)
+    else:
+      ctx.fail(rule, fi, '_apply_vocab_at_k marks every rank up to the largest k',
+               f'the marking loop runs over `{unparse(it)[:50]}` instead of every rank below the largest k: ranks'
+               ' that are not themselves requested are never marked, so precision/recall@k for a sparse k_list'
+               ' (e.g. [1, 3] or [5]) are computed from an incomplete top-k set', node=lp)
+  ctx.floor(rule, 1, n)
+
+
+def r17(ctx: Ctx, st):
+  rule = 'R-C07-17'
+  ctx.rule(rule, 'documented input conventions are implemented: when the docstring of an accumulation'
+           ' method says of a parameter that "negative values are filtered out" (the masking convention'
+           ' of an external matcher), the array built from that parameter is restricted with a'
+           ' boolean mask `x = x[x >= 0]` BEFORE its length is taken or it is compared with the'
+           ' thresholds. The true-positive counts do not notice a missing filter (negatives never'
+           ' exceed a threshold), but `len(x)` is the recall denominator: masked truths would count'
+           ' as missed relevant items, and the count depends on how much padding a batch carries')
+  repo = ctx.repo
+  n = 0
+  for mod in ('aggregates.retrieval',):
+    mi = repo.module(mod)
+    for ci in mi.classes.values():
+      for fi in ci.methods.values():
+        doc = ast.get_docstring(fi.node) or ''
+        if 'negative values are filtered out' not in ' '.join(doc.split()):
+          continue
+        # parameters the sentence is attached to: "<param>: ... negative values are filtered out"
+        # the entries of the Args section: "<param>: text ..." up to the next "<name>:" line
+        entries, cur = {}, None
+        for line in doc.splitlines():
+          st_ = line.strip()
+          head = st_.split(':', 1)[0]
+          if ':' in st_ and head in fi.params():
+            cur = head
+            entries[cur] = st_.split(':', 1)[1]
+          elif st_.endswith(':') and ' ' not in st_:
+            cur = None      # "Returns:" etc.
+          elif cur is not None:
+            entries[cur] += ' ' + st_
+        params = [p_ for p_, txt in entries.items() if 'negative values are filtered out' in ' '.join(txt.split())]
+        for p_ in params:
+          n += 1
+          filt = [x for x in walk_no_nested(fi.node) if isinstance(x, ast.Assign) and isinstance(x.value, ast.Subscript)
+                  and any(isinstance(t, ast.Name) and t.id == p_ for t in x.targets)
+                  and isinstance(x.value.value, ast.Name) and x.value.value.id == p_
+                  and isinstance(x.value.slice, ast.Compare) and isinstance(x.value.slice.ops[0], (ast.GtE, ast.LtE, ast.Gt, ast.Lt))
+                  and any(isinstance(y, ast.Name) and y.id == p_ for y in ast.walk(x.value.slice))]
+          uses = [x for x in walk_no_nested(fi.node) if isinstance(x, ast.Call) and unparse(x.func) == 'len' and x.args
+                  and isinstance(x.args[0], ast.Name) and x.args[0].id == p_]
+          if filt and all(u.lineno > filt[0].lineno for u in uses):
+            ctx.ok(rule, fi, f'{fi.qualname}: `{p_}` filtered before it is counted', filt[0])
+          else:
+            ctx.fail(rule, fi, f'{fi.qualname}: `{p_}` is restricted to its non-negative entries as documented',
+                     f'the docstring promises that negative values of `{p_}` are filtered out, but `{p_}` is never'
+                     f' restricted with a mask (`{p_} = {p_}[{p_} >= 0]`) before `len({p_})` becomes a count statistic:'
+                     ' entries masked out by the matcher are counted, so recall and f1 are deflated and depend on the'
+                     ' padding of each batch', node=(uses[0] if uses else fi.node))
+  ctx.floor(rule, 2, n)
 
 
 
@@ -1102,6 +1191,11 @@ _C = 'aggregates/classification.py'
 _T = 'aggregates/retrieval.py'
 _MC = 'metrics/classification.py'
 VARIANTS = [
+    B('masked-truths-counted', 'aggregates/retrieval.py',
+      '    matched_true_prob = matched_true_prob[matched_true_prob >= 0]\n    matched_pred_prob = matched_pred_prob[matched_pred_prob >= 0]\n',
+      '', 'R-C07-17'),
+    B('topk-marks-only-requested-ranks', 'aggregates/classification.py',
+      '  for j in range(max(k_list)):\n    if multioutput:', '  for k in sorted(k_list):\n    j = k - 1\n    if multioutput:', 'R-C07-16'),
     B('pattern-frequency-unescaped', 'aggregates/text.py',
       "re.finditer(r'(?=({}))'.format(re.escape(pattern)), text)", "re.finditer(r'(?=({}))'.format(pattern), text)", 'R-C07-15'),
     OK('pattern-frequency-escaped-via-local', 'aggregates/text.py',
